@@ -86,6 +86,9 @@ def run(res, tier, build_ok):
             reqs.append(("wf %s %d" % (enc_layout(layout), L), "ok true", c["cls"]))
     reps = drv.batch([r[0] for r in reqs])
     for (line, impl, cls), rep in zip(reqs, reps):
-        if rep != impl:
+        def unordered(t):
+            # key order of a decoded dictionary is not an observable the property speaks of
+            return sorted(t[4:].split(",")) if t.startswith("ok D") else t
+        if rep != impl and unordered(rep) != unordered(impl):
             res.tie_break("model of marshall_cdb/unmarshall_cdb disagrees with %s" % cls, {"request": line[:400], "model": rep, "implementation": impl})
     res.assumptions += ["static marshall_cdb/unmarshall_cdb are called immediately after constructing an instance of the same class (C09 covers what happens otherwise)"]
